@@ -80,6 +80,11 @@ class C17(Check):
             for kind in KINDS:
                 n = rng.choice([3, 4, 6])
                 cases.append({'f': f, 'n': n, 'nv': 2, 'cols': fml.gen_trace(rng, 3, n), 'times': list(range(n)), 'shape': 'object-fields', 'kind': kind, 'perm': 0.5})
+        # nested fields, read and written (out.inner.v = ... xa.inner.v ...)
+        for f in [P, ('once', P), ('oncet', 0, 1, P)]:
+            for kind in KINDS:
+                n = rng.choice([3, 4])
+                cases.append({'f': f, 'n': n, 'nv': 1, 'cols': fml.gen_trace(rng, 2, n), 'times': list(range(n)), 'shape': 'object-fields-nested', 'kind': kind, 'perm': 0.5})
         # the result is written to one field of the object whose other field the formula reads (xa.other = ... xa.value ...)
         for f in [P, ('oncet', 0, 1, P), ('hist', P), ('alwt', 0, 1, P)]:
             for kind in KINDS:
@@ -90,6 +95,10 @@ class C17(Check):
                     'eventually[0,1e400](xa >= 1)', 'once[0,1e300](xa >= 1)']:
             for kind in KINDS:
                 cases.append({'f': P, 'n': 3, 'nv': 1, 'cols': fml.gen_trace(rng, 2, 3), 'times': [0, 1, 2], 'shape': 'huge-bound', 'kind': kind, 'perm': 0.5, 'text': txt})
+        # finite samples whose exponential / power is beyond the largest float
+        for full in ['out = exp(xa) > 1', 'out = pow(xa, 200) > 1', 'out = once(exp(xa) >= 2)', 'out = pow(2, xa) <= 5']:
+            for kind in KINDS:
+                cases.append({'f': P, 'n': 3, 'nv': 1, 'cols': [[1000, 0, 800], [0, 0, 0]], 'times': [0, 1, 2], 'shape': 'big-values', 'kind': kind, 'perm': 0.5, 'text': full, 'full': 1})
         # assertion heads that end with a dot (one Identifier token): declared under one name, looked up under another
         for full in ['a. = (xa >= 1)', 'xb. = once(xa >= 1)']:
             for kind in KINDS:
@@ -133,14 +142,15 @@ class C17(Check):
         past = fml.has_future(f) and kind.endswith('online') and not any(s[0] in fml.UNB_FUTURE for s in fml.subformulas(f))
         if past:
             base['pastify'] = True
-        if shape == 'huge-bound':
+        if shape in ('huge-bound', 'big-values'):
             base['spec'] = c['text'] if c.get('full') else 'out = ' + c['text']
             base['pastify'] = kind.endswith('online') and ('always' in c['text'] or 'eventually' in c['text'])
-        if shape in ('object-fields', 'object-fields-same'):
+        if shape in ('object-fields', 'object-fields-same', 'object-fields-nested'):
             import re
-            head = 'out.value' if shape == 'object-fields' else 'xa.other'
-            base['spec'] = head + ' = ' + re.sub(r'\b(x[a-e])\b', r'\1.value', fml.to_text(f))
-            base['objvars'] = vars_ + (['out'] if shape == 'object-fields' else [])
+            head = {'object-fields': 'out.value', 'object-fields-same': 'xa.other', 'object-fields-nested': 'out.inner.v'}[shape]
+            fld = 'inner.v' if shape == 'object-fields-nested' else 'value'
+            base['spec'] = head + ' = ' + re.sub(r'\b(x[a-e])\b', r'\1.' + fld, fml.to_text(f))
+            base['objvars'] = vars_ + ([] if shape == 'object-fields-same' else ['out'])
             if kind == 'dense-online':
                 # one sample per update(): the monitor is called several times
                 base['calls'] = [['update', [[nm(i), dense_samples(col(i), c['times'])[k:k + 1]] for i in order]] for k in range(n)]
@@ -171,6 +181,10 @@ class C17(Check):
         stat = [i['setup']] + i['calls']
         det = {'monitor': c['kind'], 'shape': c['shape'], 'pastified': past, 'supported_by_model': sup}
         first_bad = next((s for s in stat if s['status'] != 'ok'), None)
+        if c['shape'] == 'big-values':
+            if first_bad is not None:
+                return 'violation', dict(det, spec=c['text'], expected='every call returns normally (the data are finite)', observed=first_bad)
+            return 'ok', None
         if c['shape'] == 'huge-bound':
             bad = next((s for s in stat if s['status'] not in ('ok', 'rtamt')), None)
             if bad is not None:
